@@ -1565,7 +1565,7 @@ pub fn c16(ix: &Index) -> Vec<Viol> {
         }
     }
     for e in &h.elapsed {
-        if h.spans[e.span].noop && e.obs_ns.is_some() {
+        if (h.spans[e.span].noop || h.spans[e.span].items.is_empty()) && e.obs_ns.is_some() {
             out.push(v("C16", "elapsed-from-non-recording", "elapsed() returned Some for a non-recording span".to_string()));
         }
     }
